@@ -331,47 +331,51 @@ func c12Spelling(r *Run, m *ServerModel) {
 		return st.holds(a+" == "+b, pol) || st.holds(b+" == "+a, pol)
 	}
 	numbered, plainL := 0, false
-	for _, ex := range db.Exits[pv] {
-		if ex.Fn != ast.Node(pv.Decl) || ex.St.Dead || ex.Ret == nil || len(ex.Ret.Results) != 3 {
+	// every path to every exit with the values of the three results on it (early returns and
+	// "named results, one return" read the same)
+	for _, xp := range exitPaths(r.L, db, pv, pres) {
+		if len(xp.Vals) != 3 || nospace(xp.Vals[2].s) != "true" {
 			continue
 		}
-		okv := constValue(info, ex.Ret.Results[2])
-		if okv == nil || okv.Kind() != constant.Bool || !constant.BoolVal(okv) {
-			continue
+		ex := xp.Ex
+		pos := pv.Decl.End()
+		if ex.Ret != nil {
+			pos = ex.Ret.Pos()
 		}
-		basev := constValue(info, ex.Ret.Results[0])
-		isL := basev != nil && basev.Kind() == constant.String && constant.StringVal(basev) == bv
-		if c, isConst := constInt(info, ex.Ret.Results[1]); isConst {
+		one := &HState{Paths: []FactSet{xp.Facts}}
+		isL := nospace(xp.Vals[0].s) == "version9P2000L" || nospace(xp.Vals[0].s) == strconv.Quote(bv)
+		second := nospace(xp.Vals[1].s)
+		if second == "0" {
 			// plain dialect names
-			if eq(ex.St, strParam, strconv.Quote(bv), true) || eq(ex.St, strParam, "version9P2000L", true) || eq(ex.St, strParam, "string(version9P2000L)", true) {
-				plainL = isL && c == 0
+			if eq(one, strParam, strconv.Quote(bv), true) || eq(one, strParam, "version9P2000L", true) || eq(one, strParam, "string(version9P2000L)", true) {
+				plainL = isL
 			}
 			continue
 		}
 		numbered++
 		key := fmt.Sprintf("parseVersion numbered accept #%d", numbered)
-		r.check(isL, "r4", key+": base is 9P2000.L", ex.Ret.Pos(), "returns version9P2000L", "a numbered version is accepted with base "+r.L.str(ex.Ret.Results[0]))
+		r.check(isL, "r4", key+": base is 9P2000.L", pos, "returns version9P2000L", "a numbered version is accepted with base "+xp.Vals[0].s)
 		if split == "" {
 			continue
 		}
-		nseg := ex.St.holds("len("+split+") == 4", true)
-		r.check(nseg, "r4", "parseVersion requires exactly 4 segments", ex.Ret.Pos(), "len("+split+") == 4 on the accepting path", "a numbered version is accepted without the segment count having been compared with 4 (facts: "+describePaths(ex.St)+")")
+		nseg := one.holds("len("+split+") == 4", true)
+		r.check(nseg, "r4", "parseVersion requires exactly 4 segments", pos, "len("+split+") == 4 on the accepting path", "a numbered version is accepted without the segment count having been compared with 4 (facts: "+describePaths(one)+")")
 		if len(segs) == 4 {
 			var missing []string
 			for i := 0; i < 3; i++ {
-				if !eq(ex.St, fmt.Sprintf("%s[%d]", split, i), strconv.Quote(segs[i]), true) {
+				if !eq(one, fmt.Sprintf("%s[%d]", split, i), strconv.Quote(segs[i]), true) {
 					missing = append(missing, fmt.Sprintf("segment %d == %q", i, segs[i]))
 				}
 			}
-			r.check(len(missing) == 0, "r4", "parseVersion compares the segments versionString writes", ex.Ret.Pos(), fmt.Sprintf("%q.%q.%q", segs[0], segs[1], segs[2]),
-				"versionString writes "+format+" but the accepting path of parseVersion does not establish "+strings.Join(missing, ", ")+" (facts: "+describePaths(ex.St)+")")
+			r.check(len(missing) == 0, "r4", "parseVersion compares the segments versionString writes", pos, fmt.Sprintf("%q.%q.%q", segs[0], segs[1], segs[2]),
+				"versionString writes "+format+" but the accepting path of parseVersion does not establish "+strings.Join(missing, ", ")+" (facts: "+describePaths(one)+")")
 		}
 		last := split + "[3]"
-		nonEmpty := ex.St.holds("len("+last+") == 0", false) || eq(ex.St, last, `""`, false) || ex.St.holds("len("+last+") > 0", true)
-		r.check(nonEmpty, "r4", "parseVersion rejects an empty number", ex.Ret.Pos(), "len("+last+") != 0 on the accepting path", "an empty version number is not rejected")
-		r.check(parseArgs == last+",10,32", "r4", "parseVersion parses a decimal uint32", ex.Ret.Pos(), "ParseUint("+last+", 10, 32)", "the number is parsed with ParseUint("+parseArgs+"): must be the fourth segment, base 10, 32 bits to mirror %d of a uint32")
-		r.check(eq(ex.St, name(errObj), "nil", true), "r4", "parseVersion rejects a number that does not parse", ex.Ret.Pos(), name(errObj)+" == nil on the accepting path", "a numbered version is accepted without ParseUint's error having been tested")
-		r.check(pres.str(ex.Ret.Results[1]) == "uint32("+name(numObj)+")", "r4", "parseVersion returns the parsed number", ex.Ret.Pos(), pres.str(ex.Ret.Results[1]), "the accepted version number is "+pres.str(ex.Ret.Results[1])+", not the parsed value")
+		nonEmpty := one.holds("len("+last+") == 0", false) || eq(one, last, `""`, false) || one.holds("len("+last+") > 0", true)
+		r.check(nonEmpty, "r4", "parseVersion rejects an empty number", pos, "len("+last+") != 0 on the accepting path", "an empty version number is not rejected")
+		r.check(parseArgs == last+",10,32", "r4", "parseVersion parses a decimal uint32", pos, "ParseUint("+last+", 10, 32)", "the number is parsed with ParseUint("+parseArgs+"): must be the fourth segment, base 10, 32 bits to mirror %d of a uint32")
+		r.check(eq(one, name(errObj), "nil", true), "r4", "parseVersion rejects a number that does not parse", pos, name(errObj)+" == nil on the accepting path", "a numbered version is accepted without ParseUint's error having been tested")
+		r.check(second == "uint32("+name(numObj)+")", "r4", "parseVersion returns the parsed number", pos, second, "the accepted version number is "+second+", not the parsed value")
 	}
 	r.check(numbered >= 1, "r4", "parseVersion accepts numbered versions", pv.Decl.Pos(), fmt.Sprintf("%d accepting exit(s)", numbered), "no exit of parseVersion accepts a numbered version")
 	r.check(plainL, "r4", "parseVersion: \"9P2000.L\" is version 0", pv.Decl.Pos(), "(version9P2000L, 0, true)", "the bare string \"9P2000.L\" does not parse to (version9P2000L, 0, true)")
@@ -438,7 +442,7 @@ func c12Client(r *Run, m *ServerModel) {
 	_ = pvCall
 	// c.version = parsed version
 	okVer := false
-	for _, fa := range db.Fields {
+	for _, fa := range m.fields() {
 		if fa.Root == nc && fa.Write && fa.Key == "p9.Client.version" {
 			if as, ok := r.L.parent(fa.Sel).(*ast.AssignStmt); ok && len(as.Rhs) == 1 {
 				if obj := objOf(info, as.Rhs[0]); obj != nil {
@@ -453,7 +457,7 @@ func c12Client(r *Run, m *ServerModel) {
 	// reply MSize is read and flows into messageSize and payloadSize
 	readsMSize := false
 	var msizeStore, payloadStore bool
-	for _, fa := range db.Fields {
+	for _, fa := range m.fields() {
 		if fa.Root != nc {
 			continue
 		}
